@@ -10,6 +10,8 @@ Static clauses (necessary conditions; value equality itself is not decided):
   DROP   the `None` of a checked operation (SafeAdd::try_add) must not flow into a removal: overflow turned into a silent drop
   SUBID  `a - b` never returns its subtrahend unchanged (Arithmetic::sub for Expression: no identity flow from `other`)
 """
+import re
+
 from .. import mir, e1_panic as e1, discharge
 from ..common import CallGraph, table, is_derive, site_in_derive, is_trait_call
 from ..engine import Result, ok, finding, assumption, where
@@ -199,6 +201,68 @@ def sub_identity(F, res):
         res.add([ok("SUBID", key, w, "every arm passes `other` through Arithmetic::sub / neg")])
 
 
+QTY_TY = re.compile(r"\b(NonZeroInt|PositiveCoin|u64|i64|i128|u128|Coin)\b")
+MAP_TY = re.compile(r"\b(BTreeMap|HashMap)<")
+
+
+def _qty_map(ty):
+    """a map type whose values (possibly nested maps) are quantities"""
+    ty = (ty or "").strip()
+    for wrap in ("std::result::Result<", "std::option::Option<"):
+        if ty.startswith(wrap):
+            ty = ty[len(wrap):]
+    m = re.match(r"^&?(mut )?std::collections::(BTreeMap|HashMap)<", ty)
+    if not m:
+        return False
+    rest = ty[m.end():]
+    # value part = after the first top-level comma
+    depth = 0
+    for i, ch in enumerate(rest):
+        if ch in "<([":
+            depth += 1
+        elif ch in ">)]":
+            depth -= 1
+        elif ch == "," and depth == 0:
+            return bool(QTY_TY.search(rest[i + 1:]))
+    return False
+
+
+def merge_rule(F, res, reach):
+    """Two quantity-bearing maps (multi-assets by policy, withdrawals by account) may only be combined through the aggregation
+    functions: `collect`, `extend`, `append` keep the *last* value of a repeated key and silently drop the other amount."""
+    n = 0
+    for p in sorted(reach):
+        f = F.fns.get(p)
+        if f is None or f["crate"] not in ("tx3_cardano", "tx3_tir", "tx3_resolver") or f.get("derived"):
+            continue
+        if "::asset_math::" in p:
+            continue   # the aggregation itself (entry API; its own None-handling is rule DROP)
+        seen = {}
+        for bi, t in mir.calls(f):
+            c = t.get("callee") or ""
+            name = c.split("::")[-1]
+            g = t.get("gargs") or []
+            why = None
+            if name == "collect" and "Iterator" in c and len(g) >= 2 and _qty_map(g[-1]):
+                n += 1
+                src = g[0]
+                if "Chain<" in src:
+                    why = "two sources are chained and collected into one map"
+                elif not re.match(r"^std::iter::Map<std::collections::(btree_map|hash_map)::(IntoIter|Iter|IterMut)<[^{]*>, \{closure[^}]*\}>$|^std::collections::(btree_map|hash_map)::(IntoIter|Iter)<", src):
+                    why = "a list of items is collected into a map"
+            elif name in ("extend", "append") and g and _qty_map(g[0]) and ("Extend" in c or "BTreeMap" in c):
+                n += 1
+                why = "one map is `%s`ed with another" % name
+            if why:
+                k = "%s|%s into %s" % (p, name, re.sub(r"pallas::ledger::pallas_primitives::|std::collections::", "", g[-1] if name == "collect" else g[0])[:90])
+                seen[k] = seen.get(k, 0) + 1
+                key = k if seen[k] == 1 else "%s|#%d" % (k, seen[k])
+                res.add([finding("MERGE", key, where(f, t["line"]), "%s: when a key (policy / asset / reward account) occurs twice the later amount replaces the earlier one instead of being added to it" % why)])
+    res.count("map-building sites on quantity maps", n)
+    if not [o for o in res.obs if o.rule == "MERGE"]:
+        res.add([ok("MERGE", "quantity maps|combined only by aggregation", "crates/tx3-cardano/src/compile/asset_math.rs", "%d map-building sites inspected; none merges two sources or a list into a quantity map" % n)])
+
+
 def run(ctx):
     F = ctx.F
     res = Result("C02")
@@ -207,6 +271,7 @@ def run(ctx):
     res.rule("CLAMP", "no saturating/wrapping/clamp call on the quantity path")
     res.rule("DROP", "the None of a checked add must not flow into a removal")
     res.rule("SUBID", "subtraction never returns its subtrahend unchanged")
+    res.rule("MERGE", "quantity-bearing maps are combined by aggregation, never by overwrite")
     cg = CallGraph(F)
     reach = cg.reachable(ROOTS)
     casts(F, res, reach)
@@ -215,6 +280,7 @@ def run(ctx):
     clamps(F, res, reach)
     drop_rule(F, res)
     sub_identity(F, res)
+    merge_rule(F, res, reach)
     if ctx.tier == "thorough":
         # release semantics: with overflow checks off the same arithmetic is unchecked without an Assert; the casts are unchanged
         F2 = ctx.facts("nooverflow")
